@@ -441,8 +441,8 @@ fn run(sh: &mut Shard) {
         sh.group_mode = false;
     }
     // (3) BFS with state merging over the core alphabet
-    let depth = if tier == Tier::Quick { 5 } else { 9 };
-    let cap: usize = if tier == Tier::Quick { 60_000 } else { 2_000_000 };
+    let depth = if tier == Tier::Quick { 6 } else { 9 };
+    let cap: usize = if tier == Tier::Quick { 400_000 } else { 2_000_000 };
     let mut seen: HashSet<u64> = HashSet::new();
     let mut frontier: VecDeque<Vec<usize>> = VecDeque::new();
     frontier.push_back(vec![]);
